@@ -47,25 +47,34 @@ Init == \E d \in FixedDigests, kl \in KeyLens, ml \in MsgLens, fill \in {0, 1} :
 Next == UNCHANGED x
 Spec == Init /\ [][Next]_x
 
+(* NOTE: the graphs are bound with LET inside every invariant: a LET value is computed once per evaluation, *)
+(* a top-level definition that mentions the variable would be rebuilt at every reference.                  *)
 H == DigestSize(x.dig)
 B == CeilDiv(x.n, H)
-G == <<>> \o PGraph(x.dig, x.k, x.m, B)
-P == PHashOver(G, x.dig, x.k, x.m, x.n)
-HG == <<>> \o HGraph(x.dig, x.m, B)
-HP == HashOver(HG, x.dig, x.m, x.n)
+MkG  == <<>> \o PGraph(x.dig, x.k, x.m, B)
+MkHG == <<>> \o HGraph(x.dig, x.m, B)
+Others(n, h) == {n2 \in {n - 1, n - h} : n2 >= 1}
 
-PrfDefined   == P.ok /\ Len(P.out) = x.n
-PrfPrefix    == \A n2 \in {x.n - 1, x.n - H} : n2 >= 1 => PHashOver(G, x.dig, x.k, x.m, n2).out = Take(P.out, n2)
-PrfBlocks    == Len(P.out) = x.n /\ Len(G) = 2 * B
-PrfNeedsAll  == \A i \in 1..Len(G) : (\A j \in 1..Len(G) : j # i => G[j].inp # G[i].inp) => ~PHashOver(Without(G, i), x.dig, x.k, x.m, x.n).ok
-PrfFirstBlock == x.n >= H => Take(P.out, H) = Toy(H, x.k, Toy(H, x.k, x.m) \o x.m)      \* HMAC(k, A(1) + m), A(1) = HMAC(k, m)
-PrfSecondBlock == x.n >= 2 * H =>
-    SubSeq(P.out, H + 1, 2 * H) = Toy(H, x.k, Toy(H, x.k, Toy(H, x.k, x.m)) \o x.m)    \* HMAC(k, A(2) + m), A(2) = HMAC(k, A(1))
+PrfDefined   == LET g == MkG  p == PHashOver(g, x.dig, x.k, x.m, x.n) IN p.ok /\ Len(p.out) = x.n /\ Len(g) = 2 * B
+PrfPrefix    == LET g == MkG  p == PHashOver(g, x.dig, x.k, x.m, x.n)
+                IN  \A n2 \in Others(x.n, H) : PHashOver(g, x.dig, x.k, x.m, n2).out = Take(p.out, n2)
+PrfNeedsAll  == LET g == MkG
+                IN  \A i \in 1..Len(g) :
+                       LET gi == g[i].inp
+                       IN  (\A j \in 1..Len(g) : j # i => g[j].inp # gi) => ~PHashOver(Without(g, i), x.dig, x.k, x.m, x.n).ok
+PrfFirstBlock == LET p == PHashOver(MkG, x.dig, x.k, x.m, x.n)
+                 IN  x.n >= H => Take(p.out, H) = Toy(H, x.k, Toy(H, x.k, x.m) \o x.m)      \* HMAC(k, A(1) + m), A(1) = HMAC(k, m)
+PrfSecondBlock == LET p == PHashOver(MkG, x.dig, x.k, x.m, x.n)
+                  IN  x.n >= 2 * H =>
+                        SubSeq(p.out, H + 1, 2 * H) = Toy(H, x.k, Toy(H, x.k, Toy(H, x.k, x.m)) \o x.m)   \* HMAC(k, A(2) + m)
+PrfNeedIsGraph == LET g == MkG  p == PHashOver(g, x.dig, x.k, x.m, x.n)
+                  IN  p.need = {g[i].inp : i \in 1..Len(g)}                                   \* Layer B `need` = exactly the calls
 
-HashDefined  == HP.ok /\ Len(HP.out) = x.n
-HashPrefix   == \A n2 \in {x.n - 1, x.n - H} : n2 >= 1 => HashOver(HG, x.dig, x.m, n2).out = Take(HP.out, n2)
-HashNeedsAll == \A i \in 1..Len(HG) : ~HashOver(Without(HG, i), x.dig, x.m, x.n).ok
-HashFirstBlock == x.n >= H => Take(HP.out, H) = Toy(H, <<>>, x.m \o <<1>>)
+HashDefined  == LET g == MkHG  p == HashOver(g, x.dig, x.m, x.n) IN p.ok /\ Len(p.out) = x.n /\ Len(g) = B
+HashPrefix   == LET g == MkHG  p == HashOver(g, x.dig, x.m, x.n)
+                IN  \A n2 \in Others(x.n, H) : HashOver(g, x.dig, x.m, n2).out = Take(p.out, n2)
+HashNeedsAll == LET g == MkHG IN \A i \in 1..Len(g) : ~HashOver(Without(g, i), x.dig, x.m, x.n).ok
+HashFirstBlock == LET p == HashOver(MkHG, x.dig, x.m, x.n) IN x.n >= H => Take(p.out, H) = Toy(H, <<>>, x.m \o <<1>>)
 
 (* counter encoding (no state involved) *)
 ASSUME BEMin(0) = <<>> /\ BEMin(1) = <<1>> /\ BEMin(255) = <<255>> /\ BEMin(256) = <<1, 0>> /\ BEMin(65536) = <<1, 0, 0>>
